@@ -154,6 +154,8 @@ def classify(div, ctx=None):
     elif what == "ext":
         last = ctx.get("last_op", "")
         props |= {"C18"} if last == "extract" else {"C19", "C15"}
+        if last in ("remove", "remove_hash", "remove_fully", "clear"):
+            props.add("C09")            # a removal that reached files outside the cache
         # (bytes left at a destination by an extraction that FAILED are C18's subject, not C01's:
         # C01 speaks about what a successful checked retrieval hands out)
         if last == "extract" and ctx.get("last_res_ok"):
